@@ -57,6 +57,19 @@ Theorem C01_published_vaa_passes_contract_quorum :
   ral_quorum_accepts (ral_quorum (Z.of_nat (length K))) (Z.of_nat (length (sigs v))) = true.
 Proof. exact qvalid_passes_contract_quorum. Qed.
 
+(* two nodes: what one guardian publishes, every peer whose current set is that set (at most 255 keys: the signature count is one
+   byte on the wire) and that does not store the id yet accepts and stores, byte for byte — composition of the assembly path (above),
+   the codec round trip (C05, with the payload-buffer shape read from the source) and the inbound path.  [wf (set_sigs v [])]: the
+   message's fields fit the wire format and its payload is not empty (an empty payload cannot be decoded by anyone: C05/C13). *)
+Theorem C01_peers_store_what_a_guardian_publishes :
+  forall recover keccak v g stB,
+    qvalid recover keccak v (keys g) -> (length (keys g) <= 255)%nat -> wf (set_sigs v []) ->
+    cur stB = Some g -> dlookup (id_of v) (db stB) = None ->
+    handle_inbound recover keccak stB (marshal v) =
+    ({| cur := cur stB; agg := agg stB; db := (id_of v, marshal v) :: db stB; loopq := loopq stB; clock := clock stB |},
+     [Store (id_of v) (marshal v)]).
+Proof. intros recover keccak v g stB. exact (peer_stores_published_vaa recover keccak v g stB eq_refl). Qed.
+
 (* non-vacuity: a concrete history (toy oracles) in which the node, sole member of its set, observes a message and publishes it *)
 Definition ex_own : addr := repeat x01 20.
 Definition ex_recover (h s : bytes) : option bytes := Some (firstn 20 s).
@@ -95,3 +108,4 @@ Print Assumptions C01_quorum_valid_means_distinct_members.
 Print Assumptions C01_quorum_valid_means_ascending_and_in_place.
 Print Assumptions C01_published_vaa_passes_VerifySignatures.
 Print Assumptions C01_published_vaa_passes_contract_quorum.
+Print Assumptions C01_peers_store_what_a_guardian_publishes.
